@@ -30,9 +30,10 @@ func runChild(r *vf.Run, label string, env ...string) {
 }
 
 // OtherTarget re-runs the whole monitor with the harness and the library compiled for a 32-bit
-// target (GOARCH=386, built by ./check and named in VERIF_BIN386; int, uint and uintptr are 32 bits
-// wide there) and with an aggressive garbage collector: the build target and the collector's pace are
-// part of the environment, and none of the properties is stated for 64-bit builds only.
+// target (GOARCH=386, built by ./check - with the other installed Go release, go1.26.8, when present -
+// and named in VERIF_BIN386; int, uint and uintptr are 32 bits wide there) and with an aggressive
+// garbage collector: build target, toolchain/runtime release and the collector's pace are part of the
+// environment, and none of the properties is stated for one of them only.
 func OtherTarget(r *vf.Run) {
 	exe := os.Getenv("VERIF_BIN386")
 	if exe == "" || os.Getenv("VERIF_CHILD") != "" || r.OnlyPhase != "" || r.ID == "C18" {
@@ -43,7 +44,7 @@ func OtherTarget(r *vf.Run) {
 		return
 	}
 	runChildExe(r, exe, "goarch-386", "GOGC=10")
-	r.SetExtra("goarch_386", "whole monitor repeated in a GOARCH=386 build with GOGC=10")
+	r.SetExtra("goarch_386", "whole monitor repeated in a GOARCH=386 build (made with go1.26.8 where installed) with GOGC=10")
 }
 
 func runChildExe(r *vf.Run, exe, label string, env ...string) {
